@@ -81,7 +81,8 @@ def value_for(t, U=None):
 
 
 def type_errors(frame):
-    return sorted({(r.exc, r.what, r.atoms) for r in frame.raises if r.exc in TYPE_ERRORS and r.definite})
+    return sorted({(r.exc, r.what, r.atoms) for r in frame.raises
+                   if (r.exc in TYPE_ERRORS or (r.exc == 'NotImplementedError' and r.what == 'bool()')) and r.definite})
 
 
 def _ops_with_body(reg):
